@@ -154,11 +154,19 @@ class OutOfDomain(Exception):
 
 class V:
     """a value at one observation: float, `fuzzy` when its last bits depend on how it was rounded,
-    `any` when the definitions leave it open (aggregate of no value, median of a list with NaN)"""
-    __slots__ = ("v", "fuzzy", "any")
+    `any` when the definitions leave it open (aggregate of no value, median of a list with NaN),
+    `mag` = the largest magnitude met while computing it (rounding errors are relative to that, not to
+    the value itself, when terms cancel: STD of equal large values, a/3-a/3, ...)"""
+    __slots__ = ("v", "fuzzy", "any", "mag")
 
-    def __init__(self, v, fuzzy=False, any_=False):
+    def __init__(self, v, fuzzy=False, any_=False, mag=0.0):
         self.v, self.fuzzy, self.any = float(v), fuzzy, any_
+        a = abs(self.v)
+        self.mag = max(mag, a) if a == a and a != math.inf else mag
+
+
+def mg(*vs):
+    return max([0.0] + [p.mag for p in vs])
 
 
 ANYV = V(NAN, True, True)
@@ -196,7 +204,7 @@ class Oracle:
             if p.any or q.any:
                 if o == "^":
                     raise OutOfDomain("operand of ^ left open by the definitions")
-                if o == "/" and q.any:
+                if o == "/" and (q.any or q.v == 0 or (q.fuzzy and abs(q.v) <= 1e-9 * max(1.0, q.mag))):
                     self.divzero = True
                 out.append(ANYV)
             else:
@@ -207,23 +215,28 @@ class Oracle:
         def f(p, q):
             x, y = p.v, q.v
             fz = p.fuzzy or q.fuzzy
+            m = mg(p, q)
             if o == "+":
-                return V(x + y, fz)
+                return V(x + y, fz, mag=m)
             if o == "-":
-                return V(x - y, fz)
+                return V(x - y, fz, mag=m)
             if o == "*":
-                return V(x * y, fz)
+                return V(x * y, fz, mag=m)
             if o == "/":
+                if q.fuzzy and abs(y) <= 1e-9 * max(1.0, q.mag):
+                    self.divzero = True          # zero up to rounding: NaN, a huge value or ZeroDivisionError
+                    return ANYV
                 if y == 0:
                     self.divzero = True
                     return V(NAN)
-                return V(x / y, fz or not pow2(y))
+                return V(x / y, fz or not pow2(y), mag=m)
             if o == "^":
-                if (p.fuzzy and (abs(x) < 1e-9 or abs(x - 1) < 1e-9)) or (q.fuzzy and x < 0):
+                tol = 1e-9 * max(1.0, p.mag)
+                if (p.fuzzy and (abs(x) < tol or abs(x - 1) < tol)) or (q.fuzzy and x < 0):
                     raise OutOfDomain("base or exponent too close to a singularity to decide")
-                return V(self.power(x, y), fz or (y not in (0.0, 1.0, 2.0)))
+                return V(self.power(x, y), fz or (y not in (0.0, 1.0, 2.0)), mag=m)
             if o in "<>":
-                if fz and not isnan(x) and not isnan(y) and close(x, y, 1e-9, 1e-9):
+                if fz and not isnan(x) and not isnan(y) and abs(x - y) <= 1e-9 * max(1.0, m):
                     return ANYV
                 return V(1.0 if (x < y if o == "<" else x > y) else 0.0)
             raise ValueError(o)
@@ -251,26 +264,27 @@ class Oracle:
             return ANYV
         vals = [p.v for p in a if not isnan(p.v)]
         fz = any(p.fuzzy for p in a)
+        m = mg(*a)
         if f == "SUM":
-            return V(math.fsum(vals), True)
+            return V(math.fsum(vals), True, mag=m * max(1, len(vals)))
         if f == "MEDIAN":
             if len(vals) != len(a):
                 self.undef = True
                 return ANYV
-            return V(statistics.median(vals), fz)
+            return V(statistics.median(vals), fz, mag=m)
         if not vals:
             self.undef = True
             return ANYV
         if f == "AVG":
-            return V(math.fsum(vals) / len(vals), True)
+            return V(math.fsum(vals) / len(vals), True, mag=m)
         if f == "MIN":
-            return V(min(vals), fz)
+            return V(min(vals), fz, mag=m)
         if f == "MAX":
-            return V(max(vals), fz)
+            return V(max(vals), fz, mag=m)
         if f == "MAD":
-            return V(statistics.median([abs(v) for v in vals]), fz)
+            return V(statistics.median([abs(v) for v in vals]), fz, mag=m)
         if f == "STD":
-            return V(statistics.pstdev(vals), True)
+            return V(statistics.pstdev(vals), True, mag=m)
         raise ValueError(f)
 
     def fn(self, f, a):
@@ -279,24 +293,24 @@ class Oracle:
             r = self.agg(f, a)
             return [r] * n
         if f == "ABS":
-            return [ANYV if p.any else V(abs(p.v), p.fuzzy) for p in a]
+            return [ANYV if p.any else V(abs(p.v), p.fuzzy, mag=p.mag) for p in a]
         if f == "SQRT":
             out = []
             for p in a:
-                if p.any or (p.fuzzy and abs(p.v) < 1e-9):
+                if p.any or (p.fuzzy and abs(p.v) < 1e-9 * max(1.0, p.mag)):
                     raise OutOfDomain("argument of SQRT too close to 0 / left open")
                 if p.v < 0:
                     raise OutOfDomain("sqrt of a negative")
-                out.append(V(math.sqrt(p.v), True))
+                out.append(V(math.sqrt(p.v), True, mag=p.mag))
             return out
-        sub = lambda p, q: V(p.v - q.v, p.fuzzy or q.fuzzy)
+        sub = lambda p, q: V(p.v - q.v, p.fuzzy or q.fuzzy, mag=mg(p, q))
         if f == "D":       # y(t) = x(t) - x(t-1), undefined (NaN) at the first observation
             return [V(NAN)] + [ANYV if (a[i].any or a[i - 1].any) else sub(a[i], a[i - 1]) for i in range(1, n)]
         if f == "I":       # y(0) = 0, y(t) = y(t-1) + x(t)
             out = [V(0.0)]
             for i in range(1, n):
                 p = out[-1]
-                out.append(ANYV if (p.any or a[i].any) else V(p.v + a[i].v, p.fuzzy or a[i].fuzzy))
+                out.append(ANYV if (p.any or a[i].any) else V(p.v + a[i].v, p.fuzzy or a[i].fuzzy, mag=mg(p, a[i])))
             return out
         if f == "D2":      # y(t) = x(t+1) - 2 x(t) + x(t-1), NaN at both ends
             out = [V(NAN)] * n
@@ -304,7 +318,8 @@ class Oracle:
                 if a[i - 1].any or a[i].any or a[i + 1].any:
                     out[i] = ANYV
                 else:
-                    out[i] = V(a[i + 1].v - 2 * a[i].v + a[i - 1].v, a[i - 1].fuzzy or a[i].fuzzy or a[i + 1].fuzzy)
+                    out[i] = V(a[i + 1].v - 2 * a[i].v + a[i - 1].v, a[i - 1].fuzzy or a[i].fuzzy or a[i + 1].fuzzy,
+                               mag=2 * mg(a[i - 1], a[i], a[i + 1]))
             return out
         raise ValueError(f)
 
@@ -345,7 +360,7 @@ def vec_matches(got, want, what):
     for i, (g, w) in enumerate(zip(got, want)):
         if w.any:
             continue
-        if not isinstance(g, (int, float)) or not close(g, w.v, 1e-9, 1e-9):
+        if not isinstance(g, (int, float)) or not close(g, w.v, 1e-9, 1e-9 * max(1.0, w.mag)):
             return "%s[%d] = %s, ordinary arithmetic on the tree gives %r (whole vector %s, expected %s)" % (
                 what, i, g, w.v, got, [("any" if x.any else x.v) for x in want])
     return None
@@ -411,7 +426,15 @@ class P(Prop):
                 "Integrator Differentiator SecondOrderFiniteDiff Rectifier Sqrt, Sum Averager Min Max Median Mad Variance/StdDev")
     trusted = ["float(), str.replace/split/strip, numpy.argsort (NaN last), math.sqrt, float ** float are modelled by contract",
                "the feature table is modelled as an insertion-ordered association list (its index-remapping representation is C01's subject)"]
-    rule = ""
+    rule = ("expression trees over names {a,b,x,y,z,t,idx}, literals {0,1,2,0.5,(3,4,0.25,10 in the random stream)}, operators + - * / ^ < >, "
+            "unary minus (parenthesised form and the bare positions: start, after =, ( and {, after + or -), redundant parentheses, the "
+            "functions I D D2 ABS SQRT SUM AVG MIN MAX MEDIAN MAD STD and the ' shorthand; all trees of depth <= 2 (x lhs none/new/existing/"
+            "coordinate), depth <= 3 over a small alphabet, random to depth 6; reflexive forms a+=e; vectors with 0, negatives, equal values, NaN; "
+            "tracks of 1..5 observations; optional spaces and ** for ^. Cases on which ordinary arithmetic gives no value (negative base with "
+            "fractional exponent, 0 to a negative power, sqrt of a negative, |value| > 1e12) are not generated; a division by zero may yield NaN or "
+            "ZeroDivisionError; aggregates of no valid value are unconstrained. Separate streams: the parser alone on printed strings (rpn), the "
+            "rewriting functions and the parser on arbitrary strings (str, tie only), operator objects applied directly (op), strings outside the "
+            "grammar (malformed, tie only). non-trivial = expression of depth >= 2 / parser input of depth >= 3 / any operator-object case")
 
     # ---------------------------------------------------------------- setup
     def setup(self):
@@ -510,6 +533,10 @@ class P(Prop):
         return c
 
     def render(self, c):
+        if c.get("reflex"):
+            # `a+=e`: the tree is a+(e); the string is the reflexive form (rewritten to a=a+(e) by the code)
+            s = c["lhs"] + c["reflex"] + "=" + show(c["tree"][3][1], True, c.get("bare", False))
+            return s.replace("^", "**") if c.get("stars") else s
         s = show(c["tree"], True, c.get("bare", False))
         if c.get("lhs"):
             s = c["lhs"] + "=" + s
@@ -558,16 +585,16 @@ class P(Prop):
                     emit(t, lhs, bare=rng.random() < 0.5)
         # depth 3 over a small alphabet
         small = self.trees_upto(3, [["var", "a"], ["var", "b"], ["num", "2"]], BINOPS, ["neg", "D", "SUM"])
-        for t in (small if thorough else rng.sample(small, 6000)):
+        for t in (small if thorough else rng.sample(small, 12000)):
             out.append({"kind": "rpn", "tree": t, "s": show_pre(t)})
         if thorough:
             for t in small:
                 emit(t, rng.choice(self.LHS), bare=rng.random() < 0.5, tries=3)
         else:
-            for t in rng.sample(small, 2500):
+            for t in rng.sample(small, 5000):
                 emit(t, rng.choice(self.LHS), bare=rng.random() < 0.5, tries=3)
         # random deep trees
-        nrand = 60000 if thorough else 4000
+        nrand = 80000 if thorough else 12000
         for i in range(nrand):
             d = rng.choice([3, 4, 4, 5, 5, 6])
             t = self.rand_tree(rng, d)
@@ -580,8 +607,21 @@ class P(Prop):
                 out.append(c)
                 if i % 4 == 0:
                     out.append({"kind": "rpn", "tree": t, "s": show_pre(t)})
+        # reflexive operators  lhs op= e   (meaning lhs = lhs op (e))
+        for i in range(4000 if thorough else 600):
+            rhs = self.rand_tree(rng, rng.choice([1, 2, 3, 4]))
+            if has_call_of_constant(rhs):
+                continue
+            lhs = rng.choice(["a", "b", "a", "x", "y"])
+            op = rng.choice(["+", "-", "*", "/", "^"])
+            env = self.fix_env(self.rand_env(rng, easy=rng.random() < 0.5))
+            c = {"kind": "expr", "tree": ["bin", op, ["var", lhs], ["par", rhs]], "env": env, "lhs": lhs, "reflex": op,
+                 "bare": rng.random() < 0.5, "spaces": False, "stars": rng.random() < 0.2}
+            c["expr"] = self.render(c)
+            if self.in_domain(c):
+                out.append(c)
         # operator objects applied directly
-        for i in range(6000 if thorough else 800):
+        for i in range(10000 if thorough else 2500):
             env = self.fix_env(self.rand_env(rng))
             r = rng.random()
             outn = rng.choice(["c", "a", "b"])
@@ -598,9 +638,9 @@ class P(Prop):
             if self.in_domain(c):
                 out.append(c)
         # rewriting steps and the parser on strings outside the grammar (tie only, no claim)
-        for i in range(3000 if thorough else 600):
+        for i in range(5000 if thorough else 1500):
             out.append({"kind": "str", "s": self.rand_string(rng)})
-        for i in range(1500 if thorough else 300):
+        for i in range(4000 if thorough else 800):
             env = self.fix_env(self.rand_env(rng))
             out.append({"kind": "malformed", "expr": self.rand_malformed(rng), "env": env})
         return out
@@ -648,6 +688,7 @@ class P(Prop):
             t["depth"] = depth(case["tree"])
             t["n"] = case["env"]["n"]
             t["sign"] = "bare" if case["bare"] else "paren"
+            t["form"] = "reflexive" if case.get("reflex") else ("assign" if case["lhs"] else "value")
         if case["kind"] == "op":
             t["form"] = case["form"]
         return t
@@ -891,6 +932,11 @@ class P(Prop):
     def shrink(self, case):
         if case["kind"] not in ("expr", "rpn"):
             return
+        if case.get("reflex"):
+            c = {k: v for k, v in case.items() if k != "reflex"}
+            c["expr"] = self.render(c)
+            yield c                      # the plain form lhs=lhs op (e)
+            return
         t = case["tree"]
 
         def rebuilt(nt, **kw):
@@ -935,7 +981,7 @@ class P(Prop):
                         yield rebuilt(t, env=dict(env, feats=f2))
 
     def mutate(self, case, rng):
-        if case["kind"] == "expr":
+        if case["kind"] == "expr" and not case.get("reflex"):
             for lhs in self.LHS:
                 for bare in (False, True):
                     c = dict(case, lhs=lhs, bare=bare)
